@@ -1,6 +1,7 @@
 import Cppcms.Common
 import Cppcms.C07.Model
 import Cppcms.C07.Spec
+import Cppcms.C07.Iface
 /-!
 Line protocol of the cache model driver (used by `c07_model` and `c08_model`).
 
@@ -55,6 +56,7 @@ structure JState where
 structure DState where
   cache : Option State := none
   j : JState := {}
+  ist : Option IState := none     -- `i…` lines: model of cache_interface over a thread_shared cache
 
 def parseOp (w : List String) : Option (Op × List String) :=
   match w with
@@ -172,6 +174,66 @@ def judgeLine (limitClause : Bool) (st : DState) (w : List String) : DState × S
         let j := { j with sp := (Spec.step j.sp op none).1 }
         ({ st with j := j }, if res == ["ok"] then "1" else "0 answer")
 
+/-! ### `i…` lines: the cache_interface model (`Iface.lean`) -/
+
+def parseIOp (w : List String) : Option IOp :=
+  match w with
+  | ["iadd", t] => (if t == "e" then some [] else parseHex t).map .addTrigger
+  | ["ifetch", now, k, nt] =>
+    match now.toInt?, parseHex k with
+    | some now, some k => some (.fetch now k (nt == "1"))
+    | _, _ => none
+  | ["istore", now, k, v, ts, timeout, nt] =>
+    match now.toInt?, parseHex k, parseHex v, parseTrigs ts, timeout.toInt? with
+    | some now, some k, some v, some ts, some tmo => some (.store now k v ts tmo (nt == "1"))
+    | _, _, _, _, _ => none
+  | ["iattach", id] => id.toNat?.map .attach
+  | ["idetach", id] => id.toNat?.map .detach
+  | ["ireset"] => some .reset
+  | ["irise", t] => (if t == "e" then some [] else parseHex t).map .rise
+  | ["iclear"] => some .clear
+  | ["istats"] => some .stats
+  | _ => none
+
+def ioutStr : IOut → String
+  | .miss => "miss"
+  | .hit v => s!"hit {toHex v}"
+  | .done => "ok"
+  | .detached ts => s!"detached {trigsStr ts}"
+  | .stats k t => s!"stats {k} {t}"
+
+def itail (st : IState) : String := s!" | {st.cache.size} {st.cache.trigCount}"
+
+def ifaceLine (ist : Option IState) (w : List String) : Option IState × String :=
+  match w, ist with
+  | ["inew", limit], _ =>
+    match limit.toNat? with
+    | some l => let st : IState := { cache := State.init l none }; (some st, "ok" ++ itail st)
+    | none => (ist, "bad-op")
+  | ["ipage", now, key, timeout, body, ops], some st =>
+    match now.toInt?, parseHex key, timeout.toInt?, parseHex body with
+    | some now, some key, some tmo, some body =>
+      -- every request has its own http::context, hence its own cache_interface: empty trigger set, no recorders
+      let pg : IState := { cache := st.cache }
+      let (pg1, o) := istep pg (.fetchPage now key false)
+      match o with
+      | .hit v => (some { st with cache := pg1.cache }, s!"cached {toHex v}" ++ itail pg1)
+      | _ =>
+        let opw : List (List String) := if ops == "-" then [] else (ops.splitOn ";").map (·.splitOn ":")
+        let (pg2, outs) := opw.foldl (fun (acc : IState × List String) w =>
+          match parseIOp w with
+          | some op => let (s', o) := istep acc.1 op; (s', acc.2 ++ [ioutStr o])
+          | none => (acc.1, acc.2 ++ ["bad-op"])) (pg1, [])
+        let (pg3, _) := istep pg2 (.storePage now key body tmo)
+        (some { st with cache := pg3.cache },
+          "built " ++ (if outs.isEmpty then "-" else ";".intercalate outs) ++ itail pg3)
+    | _, _, _, _ => (ist, "bad-op")
+  | _, some st =>
+    match parseIOp w with
+    | some op => let (st', o) := istep st op; (some st', ioutStr o ++ itail st')
+    | none => (ist, "bad-op")
+  | _, none => (ist, "bad-op")
+
 def stepLine (st : DState) (line : String) : DState × String :=
   match words line with
   | "J" :: rest => judgeLine false st rest
@@ -179,6 +241,10 @@ def stepLine (st : DState) (line : String) : DState × String :=
     -- limit clause only (C08 under memory pressure): every other verdict of the C07 judge is ignored
     let (st', v) := judgeLine true st rest
     (st', if v == "0 size-exceeds-limit" || v == "0 bad-case" || v == "0 bad-new" then v else "1")
-  | w => modelLine st w
+  | w =>
+    if (w.head?.getD "").startsWith "i" then
+      let (ist, o) := ifaceLine st.ist w
+      ({ st with ist := ist }, o)
+    else modelLine st w
 
 end Cppcms.C07.Proto
